@@ -188,3 +188,41 @@ def structural_invariant(ops, ROOT):
         if head.isdigit() and "/" in rel and int(head) in committed_at and i > committed_at[int(head)] and o[1] in ("append", "open", "mkdir", "rename"):
             return "operation %d (%s %s) modifies committed step %s in place" % (i, o[1], rel, head)
     return None
+
+
+def rebase(ops, old, new):
+    """Rewrite the paths (and path bytes inside written data) of ops recorded under `old` to `new`."""
+    assert len(old) == len(new)
+    o_, n_ = old.encode(), new.encode()
+    out = []
+    for o in ops:
+        o = list(o)
+        for i in range(2, len(o)):
+            if isinstance(o[i], str) and o[i].startswith(old):
+                o[i] = new + o[i][len(old):]
+            elif isinstance(o[i], bytes):
+                o[i] = o[i].replace(o_, n_)
+        out.append(tuple(o))
+    return out
+
+
+def crash_points(ops, ROOT):
+    """Structurally different crash points of a first epoch: (label, prefix length)."""
+    import re as _re
+
+    pts = {}
+    C = set()
+    for i, o in enumerate(ops):
+        if o[1] == "rename" and o[3].startswith(ROOT + "/") and o[3][len(ROOT) + 1:].isdigit():
+            C.add(int(o[3][len(ROOT) + 1:]))
+            if len(C) >= 2 and "just-committed" not in pts:
+                pts["just-committed"] = i + 1
+        rel = o[2][len(ROOT) + 1:] if isinstance(o[2], str) and o[2].startswith(ROOT + "/") else ""
+        head = rel.split("/")[0]
+        if C and _re.match(r"^\d+\.orbax-checkpoint-tmp", head) and o[1] == "append" and "tmp-present" not in pts:
+            pts["tmp-present"] = i + 1
+        if head.isdigit() and int(head) in C and o[1] == "unlink":
+            n_un = sum(1 for q in ops[: i + 1] if q[1] == "unlink" and q[2].startswith(ROOT + "/" + head + "/"))
+            if n_un == 3 and "deletion-half-done" not in pts:
+                pts["deletion-half-done"] = i + 1
+    return pts
